@@ -39,6 +39,7 @@ type ExecCtx struct {
 	parent   *ExecCtx
 	pendingLabel string
 	curPos   token.Pos
+	loopBinds []map[string]Val
 }
 
 var NilTerm = &Term{Op: "sym", Name: "$untyped_nil", Sort: "Nil"}
@@ -292,6 +293,13 @@ func (c *ExecCtx) readVar(st *State, v *types.Var) Val {
 	u := c.u
 	srt := c.sortOfType(v.Type())
 	if isPkgLevel(v) {
+		if u.eng.specs.Immutable[v.Pkg().Path()+"."+v.Name()] {
+			t := u.eng.d.Const("const_"+sanitize(v.Pkg().Path()+"."+v.Name()), srt)
+			if srt == SInt && isPointerLike(v.Type()) {
+				u.eng.d.AddAxiom("nn_"+t.Name, Ne(t, IntLit(0)))
+			}
+			return Val{t, v.Type()}
+		}
 		name := "G." + sanitize(v.Pkg().Path()) + "." + v.Name()
 		return Val{u.heapGet(st, name, srt), v.Type()}
 	}
